@@ -185,7 +185,8 @@ class Selectable:
             for t in (self.select_info.table_aliases if self.select_info else [])
             if t.aliased and t.ref_str == table
         ]
-        assert len(alias_info) <= 1
+        # NOTE: The same alias may be (wrongly) used more than once, e.g.
+        # `FROM a AS x, b AS x`. That's for AL04 to report, take the first here.
         return alias_info[0] if alias_info else None
 
 
